@@ -58,6 +58,7 @@ type step struct {
 	Res    string `json:"res"`
 	Bt     int64  `json:"bt"`
 	Max    int    `json:"max"`
+	Small  bool   `json:"small"`
 	Sel    []atx  `json:"sel"`
 	Txs    []atx  `json:"txs"`
 	Pool   []int  `json:"pool"`
@@ -470,13 +471,37 @@ func (r *run) exec() (v verdict) {
 				}
 			}
 			r.pool.RemoveList(tl)
+		case "dropold":
+			r.pool.DropOldTXs(s.Bt * r.c.Delta)
+		case "checktxs":
+			wc, _, err := r.worldContext(s.Bt)
+			if err != nil {
+				v.div("step %d: %v", i, err)
+				return
+			}
+			if got := fmt.Sprint(r.pool.CheckTxs(wc)); got != s.Res {
+				v.div("step %d: CheckTxs(block time %d) returned %s, spec says %s", i, s.Bt, got, s.Res)
+			}
+		case "hastx":
+			tx, err := r.build(s.Tx)
+			if err != nil {
+				v.div("step %d: %v", i, err)
+				return
+			}
+			if got := fmt.Sprint(r.pool.HasTx(tx.ID())); got != s.Res {
+				v.div("step %d: HasTx(#%d) returned %s, spec says %s", i, s.Tx.N, got, s.Res)
+			}
 		case "candidate":
 			wc, bi, err := r.worldContext(s.Bt)
 			if err != nil {
 				v.div("step %d: %v", i, err)
 				return
 			}
-			txs, _ := r.pool.Candidate(wc, 0, s.Max)
+			maxBytes := 0 // the default limit
+			if s.Small {
+				maxBytes = 1 // below the size of any transaction
+			}
+			txs, _ := r.pool.Candidate(wc, maxBytes, s.Max)
 			var got, want []int
 			for _, tx := range txs {
 				got = append(got, r.nOf(tx))
